@@ -107,12 +107,6 @@ Example C18_traversal_nonvacuous :
   euler (g_out g) 5 0 = Some [Enter 0; Enter 1; Enter 2; Exit 2; Exit 1; Exit 0]%N.
 Proof. vm_compute. auto. Qed.
 
-(* ================= reachability closure used by the SCC checker ================= *)
-Theorem C18_reach_spec : forall out fuel r s, reach out fuel r = Some s ->
-  forall v, ns_mem v s = true <-> path out r v.
-Proof. exact reach_spec. Qed.
-Print Assumptions C18_reach_spec.
-
 (* ================= SCC ================= *)
 From Coq Require Import FMapPositive QArith Sorted.
 From MM Require Import Spec.Scc Proofs.Scc Model.Scc Model.Graph Proofs.Graph Model.Subgraph Proofs.Subgraph Model.Dot Proofs.Dot.
@@ -271,15 +265,3 @@ Theorem C18_tarjan_correct : forall g edges, g_wf g ->
     scc_spec g comps /\ (edges = true -> scc_edges_spec g comps outs).
 Proof. exact tarjan_correct. Qed.
 Print Assumptions C18_tarjan_correct.
-
-Theorem C18_tarjan_terminates : forall g edges, g_wf g -> exists res, tarjan g edges = Some res.
-Proof. exact tarjan_terminates. Qed.
-Print Assumptions C18_tarjan_terminates.
-
-Theorem C18_tarjan_partition : forall g edges comps outs, g_wf g ->
-  tarjan g edges = Some (comps, outs) ->
-  Permutation (concat comps) (nodes_upto (g_n g)) /\
-  (forall l, In l comps -> l <> []) /\
-  length outs = length comps.
-Proof. exact tarjan_partition. Qed.
-Print Assumptions C18_tarjan_partition.
